@@ -47,7 +47,12 @@ contract("monkeytype.stubs:get_imports_for_annotation", props=["C11"], theories=
          # C11: every name the rendered annotation uses is in the import map, under the module that provides it
          ensures={"post:complete": _PROV.format(cond="uses(anno, m, n) and reveal_uses(anno)", imp="result"),
                   "post:not-none": "result is not None"},
-         hints={"reveal": "reveal_uses(anno)"},
+         hints={"reveal": "reveal_uses(anno)", "reveal-elem": "reveal_uses(L_elem_type)",
+                "elem-members": "forall(range_(0, len(args(anno))), lambda j: implies(nth(args(anno), j) is not NONETYPE, umember(L_elem_type, nth(args(anno), j))))",
+                "elem-union-uses": "implies(len(args(anno)) >= 3, uses(L_elem_type, 'typing', 'Union'))",
+                "elem-arg-uses": "forall(range_(0, len(args(anno))), lambda j: implies(nth(args(anno), j) is not NONETYPE, "
+                                 + "forall_mn(lambda m, n: implies(uses(nth(args(anno), j), m, n), uses(L_elem_type, m, n)))))",
+                "elem-uses": "forall_mn(lambda m, n: implies(uses(anno, m, n) and not (m == 'typing' and n == 'Optional'), uses(L_elem_type, m, n)))"},
          loops={0: {"iter": "elem_types",
                     "inv": {"own": "implies(kind(anno) is not K_Union, provides(imports, tmodule(anno), root_name(gname(anno))))",
                             "own-union": "implies(kind(anno) is K_Union, provides(imports, 'typing', 'Union'))",
